@@ -89,3 +89,17 @@ def errTimeAt (u : Rat) (td : TimingData) (beat : Rat) (tag : Tag := .stop) : Ra
   errTimeAtWith u (mkEngine td) (errStates u td) beat tag
 
 end Simfile
+
+namespace Simfile
+
+/-- `time_notes` with the float engine: hittability reads beats, tags and warp flags only (exact in the Python code), the
+attached time is `time_at` computed in floats -/
+def timeNotesF (R : Fl) (td : TimingData) (opt : Unhittable) (notes : List Note) : List (Rat × Note) :=
+  let e := mkEngine td
+  notes.filterMap fun n =>
+    if e.hittable n.beat || opt = .keepNote then some (timeAtF R td n.beat .stop, n)
+    else if opt = .tapToFake then
+      (if n.ntype = cTAP then some (timeAtF R td n.beat .stop, { n with ntype := cFAKE }) else none)
+    else none
+
+end Simfile
